@@ -187,6 +187,13 @@ def run(tier):
     for arg in ("[1i32, 2i32, 3i32]", "[1, 2, 3]", "[]", "a", "&a", "a[0]", "\"text\"", "[a[0], 2]", "v", "[[1]]"):
         cases.append(("bv%d" % kbv, BPRE + "fn g(v: []i32)\n{\n\tvar a: [3]i32 = [1, 2, 3];\n\text(%s);\n\tvar r = exts(%s);\n}\nfn main()\n{\n}\n" % (arg, arg), "builtins-in-value-position")); kbv += 1
         cases.append(("bv%d" % kbv, BPRE + "fn g(v: []i32)\n{\n\tvar a: [3]i32 = [1, 2, 3];\n\text(%s);\n}\nfn main()\n{\n}\n" % arg, "builtins-in-value-position")); kbv += 1
+    # the address of something read-only (a by-value parameter, a word parameter, a constant) under a bit cast and in
+    # every position: rejected (E530), never handed to the generator
+    for par, ty in (("y: u8", "&i8"), ("y: W", "&[4]u8"), ("y: i32", "&u32"), ("y: []u8", "&[..]u8")):
+        for form in ("cast &y", "cast (&y)", "(cast &y)", "&y", "cast &K", "cast &y as usize"):
+            for ctx in ("\tvar p: %s = %s;\n", "\tvar p: %s = 0x0;\n\t&p = %s;\n", "\ttakes(%s%s);\n"):
+                body = ctx % (ty, form) if ctx.count("%s") == 2 and "takes" not in ctx else ("\ttakes(%s);\n" % form)
+                cases.append(("bv%d" % kbv, "word32 W\n{\n\ta: u8,\n\tb: u8,\n\tc: u8,\n\td: u8,\n}\nconst K: u8 = 1;\nfn takes(p: %s)\n{\n}\nfn foo(%s)\n{\n%s}\nfn main()\n{\n}\n" % (ty, par, body), "address-of-read-only")); kbv += 1
     # members and elements of values whose type is never given
     for acc in ("x.a", "x[0]", "x.a.b", "x[0].a", "|x|", "&x", "x as i32", "-x", "x + 1"):
         cases.append(("bv%d" % kbv, "fn main()\n{\n\tvar x;\n\tvar y: i32 = %s;\n}\n" % acc, "untyped-values")); kbv += 1
